@@ -76,8 +76,8 @@ Proof.
   intros F.
   pose (o := {| o_helo := fun _ => true; o_addr := fun _ _ => AP_nobracket; o_ext := fun _ => Ext_einval; o_relay := 0%Z; o_mx := fun _ => 0;
                 o_qq := fun _ => QQ_ok; o_databytes := 0%N; o_liphost := []; o_check2822 := false; o_authperm := false;
-                o_auth := fun _ => Auth_multi; o_trace := fun _ _ _ _ _ _ => [];
-                o_submission := true; o_subm_date := []; o_subm_stamp := []; o_msgidhost := [] |}).
+                o_auth := fun _ => Auth_multi; o_trace := fun _ _ _ _ _ _ _ => [];
+                o_submission := true; o_subm_date := []; o_subm_stamp := []; o_msgidhost := []; o_tls := false; o_tlsverify := TV_no |}).
   pose (dc := {| d_wfail := false; d_chk := false; d_dt := false; d_rcpts := []; d_subm := true;
                  d_date := [88]%N; d_from := [102]%N; d_stamp := [49]%N; d_idhost := [104]%N |}).
   (* the client sends  .Date: x CRLF . CRLF *)
@@ -154,8 +154,8 @@ Example C02_nonvacuous_submission :
   let o := {| o_helo := fun _ => true;
               o_addr := fun _ arg => match arg with 60%N :: c :: _ => AP_ok [c] None RLocal | _ => AP_nobracket end;
               o_ext := fun _ => Ext_ok 0 0 None; o_relay := 1%Z; o_mx := fun _ => 0; o_qq := fun _ => QQ_ok;
-              o_databytes := 0%N; o_liphost := []; o_check2822 := false; o_authperm := false; o_auth := fun _ => Auth_multi; o_trace := fun _ _ _ _ _ _ => [88; 10]%N;
-              o_submission := true; o_subm_date := [100]%N; o_subm_stamp := [49; 46; 50]%N; o_msgidhost := [104]%N |} in
+              o_databytes := 0%N; o_liphost := []; o_check2822 := false; o_authperm := false; o_auth := fun _ => Auth_multi; o_trace := fun _ _ _ _ _ _ _ => [88; 10]%N;
+              o_submission := true; o_subm_date := [100]%N; o_subm_stamp := [49; 46; 50]%N; o_msgidhost := [104]%N; o_tls := false; o_tlsverify := TV_no |} in
   filter (fun e => match e with Handoff _ _ => true | _ => false end)
     (run_session o [ [72;69;76;79;32;120;13;10]; [77;65;73;76;32;70;82;79;77;58;60;97;62;13;10];
                      [82;67;80;84;32;84;79;58;60;98;62;13;10]; [68;65;84;65;13;10];
@@ -168,8 +168,8 @@ Example C02_nonvacuous :
   let o := {| o_helo := fun _ => true;
               o_addr := fun _ arg => match arg with 60%N :: c :: _ => AP_ok [c] None RLocal | _ => AP_nobracket end;
               o_ext := fun _ => Ext_ok 0 0 None; o_relay := 0%Z; o_mx := fun _ => 0; o_qq := fun _ => QQ_ok;
-              o_databytes := 0%N; o_liphost := []; o_check2822 := false; o_authperm := false; o_auth := fun _ => Auth_multi; o_trace := fun _ _ _ _ _ _ => [88; 10]%N;
-              o_submission := false; o_subm_date := []; o_subm_stamp := []; o_msgidhost := [] |} in
+              o_databytes := 0%N; o_liphost := []; o_check2822 := false; o_authperm := false; o_auth := fun _ => Auth_multi; o_trace := fun _ _ _ _ _ _ _ => [88; 10]%N;
+              o_submission := false; o_subm_date := []; o_subm_stamp := []; o_msgidhost := []; o_tls := false; o_tlsverify := TV_no |} in
   filter (fun e => match e with Handoff _ _ => true | _ => false end)
     (run_session o [ [72;69;76;79;32;120;13;10]; [77;65;73;76;32;70;82;79;77;58;60;97;62;13;10];
                      [82;67;80;84;32;84;79;58;60;98;62;13;10]; [68;65;84;65;13;10];
